@@ -801,6 +801,185 @@ pub fn schnorr(seed: u64, thorough: bool) -> Vec<Value> {
     out
 }
 
+
+// ====================================================================== Range constraints (C13)
+
+fn published_sig(t: &Tree, i: usize) -> Signature {
+    let (lo, hi) = t.span(&format!("digit_signatures.{}", i)).unwrap();
+    bincode::deserialize(&t.bytes[lo..hi]).unwrap()
+}
+
+/// assemble a range constraint from arbitrary (claimed digit, signature) pairs linked to a host proof
+fn assemble_range(rp: &RangeConstraintParameters, rpkv: &Pk, rpk: &PublicKey<1>, claims: &[Scalar; 9], sigs: &[Signature; 9], link: bool, rng: &mut StdRng) -> Value {
+    let hostp = PedersenParameters::<G1Projective, 1>::new(rng);
+    let mut builders = vec![];
+    let mut total_cs = Scalar::zero();
+    let mut value = Scalar::zero();
+    let mut pow = Scalar::one();
+    for j in 0..9 {
+        let b = SignatureProofBuilder::<1>::generate_proof_commitments(rng, Message::<1>::new([claims[j]]), sigs[j], &[None], rpk);
+        total_cs += pow * b.conjunction_commitment_scalars()[0];
+        value += pow * claims[j];
+        pow *= Scalar::from(128u64);
+        builders.push(b);
+    }
+    let host = CommitmentProofBuilder::<G1Projective, 1>::generate_proof_commitments(rng, Message::<1>::new([value]), &[if link { Some(total_cs) } else { None }], &hostp);
+    let mut cb = ChallengeBuilder::new().with(&host);
+    for b in &builders { cb = cb.with(b); }
+    let ch = cb.finish();
+    let hp = host.generate_proof_response(ch);
+    let mut bytes = vec![];
+    let mut digits_ok = true;
+    let mut sum = Scalar::zero();
+    let mut pow = Scalar::one();
+    for b in builders {
+        let p = b.generate_proof_response(ch);
+        let t = Tree::of(&p);
+        let v = sp_root(&t).unwrap();
+        let (a, b_, c_) = v.relations(rpkv, &ch.to_scalar());
+        digits_ok = digits_ok && a && b_ && c_;
+        sum += pow * v.cp.z[0];
+        pow *= Scalar::from(128u64);
+        bytes.extend(t.bytes);
+    }
+    let z0 = hp.conjunction_response_scalars()[0];
+    let rc: Result<zkchannels_crypto::proofs::RangeConstraint, _> = bincode::deserialize(&bytes);
+    let in_range = { let b = value.to_bytes(); b[8..].iter().all(|&x| x == 0) && b[7] < 0x80 };
+    match rc {
+        Ok(rc) => json!({"decoded": true, "verdict": rc.verify_range_constraint(rp, ch, z0), "atoms": {"all_digit_proofs": digits_ok, "weighted_sum_equals_linked_response": sum == z0}, "linked_value_in_range": in_range}),
+        Err(_) => json!({"decoded": false, "verdict": false, "atoms": {"all_digit_proofs": digits_ok, "weighted_sum_equals_linked_response": sum == z0}, "linked_value_in_range": in_range}),
+    }
+}
+
+pub fn range(seed: u64, thorough: bool) -> Vec<Value> {
+    let mut rng = seeded(seed, 64);
+    let mut out = vec![];
+    let rp = RangeConstraintParameters::new(&mut rng);
+    let rpk = rp.public_key().clone();
+    let rt = Tree::of(&rp);
+    let rpkv = Pk::from_tree(&rt, "public_key").unwrap();
+    let other_rp = RangeConstraintParameters::new(&mut rng);
+    // ---- prover: refuses exactly the negative inputs
+    let mut vals: Vec<i64> = vec![i64::MIN, i64::MIN + 1, -(1i64 << 62), -129, -128, -127, -2, -1, 0, 1, 2, 127, 128, 129, 1i64 << 62, i64::MAX - 1, i64::MAX,
+                                  0x0123_4567_89ab_cdef, 0x7edc_ba98_7654_3210];
+    for k in 1..9u32 { let p = 128i64.pow(k); vals.extend([p - 1, p, p + 1, -p]); }
+    { use rand::Rng; for _ in 0..(if thorough { 200 } else { 12 }) { vals.push(rng.gen::<i64>()); } }
+    let hostp = PedersenParameters::<G1Projective, 2>::new(&mut rng);
+    for (i, v) in vals.iter().enumerate() {
+        let r = catch_unwind(AssertUnwindSafe(|| RangeConstraintBuilder::generate_constraint_commitments(*v, &rp, &mut seeded(seed + i as u64, 7))));
+        let mut ev = json!({"ev": "rangeprover", "value": v.to_string(), "negative": *v < 0});
+        match r {
+            Ok(Ok(rb)) => {
+                ev["out"] = json!("ok");
+                // honest use: link slot 1 of a host proof; verify; mismatches of link, parameters and challenge
+                let cs = rb.commitment_scalar();
+                let hb = CommitmentProofBuilder::<G1Projective, 2>::generate_proof_commitments(&mut rng, Message::new([Scalar::from(77u64), Scalar::from(*v as u64)]), &[None, Some(cs)], &hostp);
+                let ch = ChallengeBuilder::new().with(&hb).with(&rb).finish();
+                let hp = hb.generate_proof_response(ch);
+                let rc = rb.generate_constraint_response(ch);
+                let z = hp.conjunction_response_scalars();
+                let other_ch = ChallengeBuilder::new().with(&hp).with_bytes(b"z").finish();
+                ev["honest"] = json!({"verifies": rc.verify_range_constraint(&rp, ch, z[1]),
+                                      "wrong_slot": rc.verify_range_constraint(&rp, ch, z[0]),
+                                      "other_params": rc.verify_range_constraint(&other_rp, ch, z[1]),
+                                      "other_challenge": rc.verify_range_constraint(&rp, other_ch, z[1]),
+                                      "shifted_response": rc.verify_range_constraint(&rp, ch, z[1] + Scalar::one())});
+                // not linked at all
+                let rb2 = RangeConstraintBuilder::generate_constraint_commitments(*v, &rp, &mut rng).unwrap();
+                let hb2 = CommitmentProofBuilder::<G1Projective, 2>::generate_proof_commitments(&mut rng, Message::new([Scalar::from(77u64), Scalar::from(*v as u64)]), &[None, None], &hostp);
+                let ch2 = ChallengeBuilder::new().with(&hb2).with(&rb2).finish();
+                let hp2 = hb2.generate_proof_response(ch2);
+                ev["honest"]["unlinked"] = json!(rb2.generate_constraint_response(ch2).verify_range_constraint(&rp, ch2, hp2.conjunction_response_scalars()[1]));
+            }
+            Ok(Err(_)) => ev["out"] = json!("err"),
+            Err(e) => ev["out"] = json!(format!("panic:{}", panic_message(e))),
+        }
+        out.push(ev);
+    }
+    // ---- attacker-assembled constraints from the published digit signatures
+    let sig = |i: usize| published_sig(&rt, i);
+    let sc = |v: u64| Scalar::from(v);
+    let all = |d: u64| -> ([Scalar; 9], [Signature; 9]) { ([sc(d); 9], [sig(d as usize); 9]) };
+    let mut cases: Vec<(String, [Scalar; 9], [Signature; 9], bool)> = vec![];
+    let (c, s_) = all(127); cases.push(("all digits maximal (2^63-1)".into(), c, s_, true));
+    let (c, s_) = all(0); cases.push(("all digits zero".into(), c, s_, true));
+    let digs = [5u64, 0, 127, 64, 1, 99, 3, 126, 17];
+    let c2: Vec<Scalar> = digs.iter().map(|&d| sc(d)).collect();
+    let s2: Vec<Signature> = digs.iter().map(|&d| sig(d as usize)).collect();
+    let mut ca = [Scalar::zero(); 9]; ca.copy_from_slice(&c2);
+    let mut sa = [sig(0); 9]; sa.copy_from_slice(&s2);
+    cases.push(("digits of an arbitrary value".into(), ca, sa, true));
+    { let mut cp = ca; let mut sp = sa; cp.swap(0, 8); sp.swap(0, 8); cases.push(("digits permuted consistently".into(), cp, sp, true)); }
+    { let mut sp = sa; sp.swap(0, 2); cases.push(("signatures of two digits swapped".into(), ca, sp, true)); }
+    for j in [0usize, 4, 8] {
+        let (mut c, s_) = all(127); c[j] = sc(128); cases.push((format!("digit {} claims 128 with the signature on 127", j), c, s_, true));
+        let (mut c, s_) = all(0); c[j] = -Scalar::one(); cases.push((format!("digit {} claims -1 with the signature on 0", j), c, s_, true));
+        let (mut c, s_) = all(3); c[j] = sc(5000); cases.push((format!("digit {} claims 5000 with the signature on 3", j), c, s_, true));
+        let (c, mut s_) = all(9); s_[j] = sig(10); cases.push((format!("digit {} claims 9 with the signature on 10", j), c, s_, true));
+    }
+    // a digit proof under the attacker's own key
+    {
+        let akp = KeyPair::<1>::new(&mut rng);
+        let (mut c, mut s_) = all(1); c[3] = sc(300); s_[3] = Message::<1>::new([sc(300)]).sign(&mut rng, &akp);
+        cases.push(("digit 3 claims 300 with a signature under the attacker's key".into(), c, s_, true));
+        let (c, mut s_) = all(1); s_[3] = Message::<1>::new([sc(1)]).sign(&mut rng, &akp);
+        cases.push(("digit 3 claims 1 with a signature under the attacker's key".into(), c, s_, true));
+        let (c, mut s_) = all(2); s_[0] = published_sig(&Tree::of(&other_rp), 2);
+        cases.push(("digit 0 uses the digit signature of another parameter set".into(), c, s_, true));
+    }
+    // linear combination of two published signatures (works iff they share sigma1, i.e. the signer reused its base)
+    let mut sigma1_distinct = true;
+    {
+        let mut seen = std::collections::HashSet::new();
+        for i in 0..128 { if !seen.insert(sig(i).sigma1().to_compressed().to_vec()) { sigma1_distinct = false; } }
+        let (sa_, sb_) = (sig(3), sig(7));
+        let hy = (G1Projective::from(sb_.sigma2()) - G1Projective::from(sa_.sigma2())) * Option::<Scalar>::from(sc(4).invert()).unwrap();
+        let forged2 = G1Projective::from(sa_.sigma2()) + hy * (sc(128) - sc(3));
+        let mut fb = sa_.sigma1().to_compressed().to_vec();
+        fb.extend_from_slice(&G1Affine::from(forged2).to_compressed());
+        if let Ok(fs) = bincode::deserialize::<Signature>(&fb) {
+            let (mut c, mut s_) = all(0); c[8] = sc(128); s_[8] = fs;
+            cases.push(("top digit claims 128 with a linear combination of two published signatures".into(), c, s_, true));
+        }
+    }
+    { let (c, s_) = all(127); cases.push(("all digits maximal, not linked to the host".into(), c, s_, false)); }
+    for (name, c, s_, link) in cases {
+        let honest = name.starts_with("all digits") && link || name.starts_with("digits of") || name.starts_with("digits permuted");
+        let mut ev = assemble_range(&rp, &rpkv, &rpk, &c, &s_, link, &mut rng);
+        ev["ev"] = json!("rangeattack");
+        ev["case"] = json!(name);
+        ev["well_formed"] = json!(honest);
+        out.push(ev);
+    }
+    out.push(json!({"ev": "rangeparams", "case": "published sigma1 all distinct", "expect_ok": true, "validate_ok": sigma1_distinct, "all_signatures_valid_independently": sigma1_distinct}));
+    // ---- parameter validation: accepts exactly the sets whose i-th signature verifies on digit i
+    let akp = KeyPair::<1>::new(&mut rng);
+    let mut subs: Vec<(String, usize, Signature, bool)> = vec![("untouched".into(), 0, sig(0), true)];
+    for (i, j) in [(0usize, 1usize), (1, 0), (5, 6), (127, 126), (64, 0), (0, 127)] { subs.push((format!("signature {} replaced by signature {}", i, j), i, sig(j), false)); }
+    for i in [0usize, 1, 77, 127] {
+        let mut s_ = sig(i); s_.randomize(&mut rng);
+        subs.push((format!("signature {} re-randomised", i), i, s_, true));
+        subs.push((format!("signature {} replaced by one under another key", i), i, Message::<1>::new([sc(i as u64)]).sign(&mut rng, &akp), false));
+        subs.push((format!("signature {} replaced by the other parameter set's", i), i, published_sig(&Tree::of(&other_rp), i), false));
+    }
+    if thorough { for i in 2..127usize { subs.push((format!("signature {} replaced by signature {}", i, i + 1), i, sig(i + 1), false)); } }
+    for (name, i, s_, expect) in subs {
+        let mut b = rt.bytes.clone();
+        let (lo, hi) = rt.span(&format!("digit_signatures.{}", i)).unwrap();
+        b[lo..hi].copy_from_slice(&bincode::serialize(&s_).unwrap());
+        let p2: RangeConstraintParameters = bincode::deserialize(&b).unwrap();
+        let t2 = Tree::of(&p2);
+        let mut all_ok = true;
+        for k in 0..128usize {
+            let sk = published_sig(&t2, k);
+            let (wf, pe) = indep::ps_relation(&rpkv, &[sc(k as u64)], &sk.sigma1(), &sk.sigma2());
+            all_ok = all_ok && wf && pe;
+        }
+        out.push(json!({"ev": "rangeparams", "case": name, "expect_ok": expect, "validate_ok": p2.validate().is_ok(), "all_signatures_valid_independently": all_ok}));
+    }
+    out
+}
+
 #[allow(dead_code)]
 fn _keep(_: &Sp, _: &G2Affine, _: &G2Projective, _: &PedersenParameters<G1Projective, 1>, _: &PublicKey<1>, _: &CommitmentProofBuilder<G1Projective, 1>,
          _: &RangeConstraintBuilder, _: &RangeConstraintParameters, _: &SignatureProofBuilder<1>) {
